@@ -15,15 +15,54 @@ import (
 
 type verifManager struct {
 	pebblewal.Manager
-	wrap func(pebblewal.Writer) pebblewal.Writer
+	wrap     func(pebblewal.Writer) pebblewal.Writer
+	obsolete func([]pebblewal.DeletableLog) []pebblewal.DeletableLog
 }
 
 func (m verifManager) Create(wn pebblewal.NumWAL, jobID int) (pebblewal.Writer, error) {
 	w, err := m.Manager.Create(wn, jobID)
-	if err != nil {
+	if err != nil || m.wrap == nil {
 		return w, err
 	}
 	return m.wrap(w), nil
+}
+
+func (m verifManager) Obsolete(
+	minUnflushedNum pebblewal.NumWAL, noRecycle bool,
+) ([]pebblewal.DeletableLog, error) {
+	logs, err := m.Manager.Obsolete(minUnflushedNum, noRecycle)
+	if err != nil || m.obsolete == nil {
+		return logs, err
+	}
+	return m.obsolete(logs), nil
+}
+
+// VerifSeams are the interposition points of VerifInterpose; nil members are not used.
+type VerifSeams struct {
+	// WrapWriter is applied to the open WAL writer and to every writer created later.
+	WrapWriter func(pebblewal.Writer) pebblewal.Writer
+	// WrapObsolete sees the list of deletable logs the manager hands to cleanupObsoleteWALs
+	// right before the store removes them; it may replace the FS member of the elements (the
+	// store removes each file through that FS), which makes every removal observable.
+	WrapObsolete func([]pebblewal.DeletableLog) []pebblewal.DeletableLog
+}
+
+// VerifInterpose installs the seams on a store. It reports false for a foreign implementation.
+func VerifInterpose[V types.Hashable[H], H types.Hash, A types.Addr](
+	store TendermintWALStore[V, H, A],
+	seams VerifSeams,
+) bool {
+	s, ok := store.(*tendermintWALStore[V, H, A])
+	if !ok {
+		return false
+	}
+	s.mu.Lock()
+	defer s.mu.Unlock()
+	s.wal.manager = verifManager{Manager: s.wal.manager, wrap: seams.WrapWriter, obsolete: seams.WrapObsolete}
+	if s.wal.writer != nil && seams.WrapWriter != nil {
+		s.wal.writer = seams.WrapWriter(s.wal.writer)
+	}
+	return true
 }
 
 // VerifInterposeWriter routes the store's current WAL writer (if one is open) and every writer
@@ -32,15 +71,5 @@ func VerifInterposeWriter[V types.Hashable[H], H types.Hash, A types.Addr](
 	store TendermintWALStore[V, H, A],
 	wrap func(pebblewal.Writer) pebblewal.Writer,
 ) bool {
-	s, ok := store.(*tendermintWALStore[V, H, A])
-	if !ok {
-		return false
-	}
-	s.mu.Lock()
-	defer s.mu.Unlock()
-	s.wal.manager = verifManager{Manager: s.wal.manager, wrap: wrap}
-	if s.wal.writer != nil {
-		s.wal.writer = wrap(s.wal.writer)
-	}
-	return true
+	return VerifInterpose(store, VerifSeams{WrapWriter: wrap})
 }
